@@ -17,6 +17,7 @@ def words(alphabet, n, foreign="zz", nf=3):
 
 
 W4 = words(["a", "b"], 4)
+W3 = words(["a", "b"], 3)
 W2 = words(["a", "b"], 2, nf=2)
 EPSW = [("epsilon",), ("a", "epsilon"), ("epsilon", "a", "b"), ("a", "epsilon", "epsilon", "b")]
 
@@ -68,9 +69,13 @@ class C01(Prop):
     HORIZON = 10.0
     OPS = ["to_deterministic", "remove_epsilon_transitions", "minimize", "copy"]
 
+    TIER = "quick"
+
     def layers(self, tier, seed):
+        self.TIER = tier
         adv = ["natural@mixed", "natural@merged", "natural@reserved", "1@merged", "2@mixed"]
         if tier == "quick":
+            adv = ["natural@mixed", "natural@merged", "1@reserved"]
             return [Layer("FA(2,2,<=12)", lambda: G.fa_cases(2, 2, 0, 12), rep=G.is_rep),
                     Layer("FA(3,2,<=3)", lambda: G.fa_cases(3, 2, 0, 3), rep=G.is_rep),
                     Layer("cycle DFAs n=5 (partial b, every 21st)", lambda: cycle5(21), policies=["natural@str", "1@str"]),
@@ -88,7 +93,7 @@ class C01(Prop):
 
     def default_policies(self, tier, seed):
         if tier == "quick":
-            return ["natural@int", "natural@str", "1@int", "2@str", "3@int", "s%d@str" % seed]
+            return ["natural@int", "natural@str", "1@int", "2@str", "s%d@int" % seed]
         return ["natural@int", "natural@str"] + ["%d@%s" % (i, "int" if i % 2 else "str") for i in range(1, 13)] + \
                ["s%d@int" % (seed * 7 + 1), "s%d@str" % (seed * 7 + 2)]
 
@@ -127,19 +132,27 @@ class C01(Prop):
         if kind == "dfa":
             builds += [("dfa", "add"), ("dfa", "ctor")]
         full = scheme in ("int",)
-        wl = W4 if full else W2
         for cls, via in builds:
+            wl = W2
+            if full and (cls, via) in (("enfa", "add"), ("dfa", "add")):
+                wl = W4 if ctx.notes.get("tier") == "thorough" or self.TIER == "thorough" else W3
             tag = cls + "/" + via
             b = ctx.call(O.build_fa, case, cls, scheme, None, via)
             if not ctx.returns(b, "C01.build", cls=tag):
                 continue
             a = b.value
-            for w in wl:
-                r = ctx.call(a.accepts, list(w))
-                if ctx.returns(r, "C01.accepts", cls=tag, word=w):
-                    if r.value is not ref["acc"][w]:
-                        ctx.fail("C01.accepts", cls=tag, word=w, got=r.value, want=ref["acc"][w])
-                        break
+            # all words under one watchdog; word by word only when something went wrong (to name the word)
+            batch = ctx.call(lambda: [a.accepts(list(w)) for w in wl])
+            ctx.ops += len(wl) - 1
+            if batch.ok and all(g is ref["acc"][w] for g, w in zip(batch.value, wl)):
+                pass
+            else:
+                for w in wl:
+                    r = ctx.call(a.accepts, list(w))
+                    if ctx.returns(r, "C01.accepts", cls=tag, word=w):
+                        if r.value is not ref["acc"][w]:
+                            ctx.fail("C01.accepts", cls=tag, word=w, got=r.value, want=ref["acc"][w])
+                            break
             if cls == "enfa" and via == "add":
                 for w in EPSW:
                     want = ref["acc"][tuple(x for x in w if x != "epsilon")]
@@ -162,11 +175,14 @@ class C01(Prop):
                 if w is not None:
                     ctx.fail(clause + ".lang", cls=tag, witness=w, operand_accepts=rnfa.accepts(w),
                              result=x.describe())
-                for w in W2:
-                    rr = ctx.call(res.accepts, list(w))
-                    if ctx.returns(rr, clause + ".accepts", cls=tag, word=w) and rr.value is not ref["acc"][w]:
-                        ctx.fail(clause + ".accepts", cls=tag, word=w, got=rr.value, want=ref["acc"][w])
-                        break
+                batch = ctx.call(lambda: [res.accepts(list(w)) for w in W2])
+                ctx.ops += len(W2) - 1
+                if not (batch.ok and all(g is ref["acc"][w] for g, w in zip(batch.value, W2))):
+                    for w in W2:
+                        rr = ctx.call(res.accepts, list(w))
+                        if ctx.returns(rr, clause + ".accepts", cls=tag, word=w) and rr.value is not ref["acc"][w]:
+                            ctx.fail(clause + ".accepts", cls=tag, word=w, got=rr.value, want=ref["acc"][w])
+                            break
                 if op in ("to_deterministic", "minimize"):
                     bad = shape_deterministic(x)
                     d = ctx.call(res.is_deterministic)
